@@ -60,6 +60,7 @@ type vWorker struct {
 	wantM   *sync.RWMutex
 	wantW   bool
 	grant   chan struct{}
+	views   []string      // fetchConsumer only: what the broker map held for the reply's topics at delivery ("" otherwise)
 	replies []string      // formatted at delivery
 	objs    []interface{} // the delivered reply objects (re-formatted at the end: alias check)
 	kinds   []string
@@ -216,6 +217,7 @@ func (s *vSched) step(w int, module *InMemoryStorage) string {
 				wk.objs = append(wk.objs, v)
 				wk.kinds = append(wk.kinds, r.op)
 				wk.replies = append(wk.replies, vfmtReply(r.op, v))
+				wk.views = append(wk.views, vbrokerView(module, r, v))
 			}
 			return fmt.Sprintf("%d.%s/D", w, acq)
 		default:
@@ -335,6 +337,41 @@ func vfmtConsumer(r interface{}) string {
 			fmt.Fprintf(&sb, " %d", len(p.Offsets))
 			for _, o := range p.Offsets {
 				sb.WriteString(" " + vfmtOff(o))
+			}
+		}
+	}
+	return sb.String()
+}
+
+// vbrokerView: for a fetchConsumer reply, the broker side as it is when the reply is delivered (the last step of
+// fetchConsumer reads it under the broker lock and nothing has run since): for every topic of the reply and every
+// partition index of that topic in the reply, `x` = the broker map has no such topic / partition, `n` = no broker offset
+// recorded yet, otherwise the newest broker offset.  Used by the check's oracle only (the model does not print it).
+func vbrokerView(module *InMemoryStorage, r *vReq, v interface{}) string {
+	if r.op != "FX" || v == nil {
+		return ""
+	}
+	topics := v.(protocol.ConsumerTopics)
+	cm := module.offsets[r.req.Cluster]
+	ids := make([]int64, 0, len(topics))
+	for t := range topics {
+		ids = append(ids, vid("t", t))
+	}
+	sort.Slice(ids, func(a, b int) bool { return ids[a] < ids[b] })
+	var sb strings.Builder
+	fmt.Fprintf(&sb, "V %d", len(ids))
+	for _, id := range ids {
+		parts := topics[vname("t", id)]
+		fmt.Fprintf(&sb, " %d %d", id, len(parts))
+		bl, ok := cm.broker[vname("t", id)]
+		for p := range parts {
+			switch {
+			case !ok || p >= len(bl):
+				sb.WriteString(" x")
+			case bl[p].Value == nil:
+				sb.WriteString(" n")
+			default:
+				fmt.Fprintf(&sb, " %d", bl[p].Value.(*brokerOffset).Offset)
 			}
 		}
 	}
@@ -613,8 +650,11 @@ func vcase(t *vtoks) string {
 		return strings.Join(out, " | ")
 	}
 	for w, wk := range s.workers {
-		for _, r := range wk.replies {
+		for i, r := range wk.replies {
 			out = append(out, fmt.Sprintf("r%d: %s", w, r))
+			if wk.views[i] != "" {
+				out = append(out, fmt.Sprintf("v%d: %s", w, wk.views[i]))
+			}
 		}
 	}
 	out = append(out, vdump(module))
